@@ -23,7 +23,7 @@ META = {
                  "TypeAliasType('string'), Final, ClassVar, 'string reference', ForwardRef(module=..)} that Python permits; positions root, "
                  "list[.], dict[str, .], tuple[., int], Union[., None], dataclass field; 10 inputs per base (valid wire forms, text, "
                  "wrong-typed, None) through unmarshaller, marshaller and codec; string references issued from the defining module, "
-                 "from another module with a qualified name and from nested call depth 3 - all choice variables; 15 reference *expressions* "
+                 "from another module with a qualified name and from nested call depth 3 - all choice variables; 18 reference *expressions* (also as the value of a string-valued alias, at the root and as a list element) "
                  "(nested class 'Outer.Inner', 'A | B', 'A | None', 'list[Outer.Inner]', 'tuple[A, int]', fully qualified forms issued from "
                  "another module) x {unmarshaller, marshaller, codec} x 11-12 inputs against the evaluated type; classes whose recursion is closed through a NewType / TypeAliasType (Optional and list edges) against the class that names itself, wire trees of depth <= 2; plus, per wrapper kind and "
                  "base, the two root unmarshallers on a symbolic x in J depth 1 (E1)",
@@ -231,20 +231,36 @@ def _refexprs():
     Q = W.__name__
     local = {"WOuter.WInner": W.WOuter.WInner, "list[WOuter.WInner]": list[W.WOuter.WInner], "dict[str, WOuter.WInner]": dict[str, W.WOuter.WInner],
              "WPoint | None": W.WPoint | None, "WPoint | WOther": W.WPoint | W.WOther, "tuple[WPoint, int]": tuple[W.WPoint, int],
-             "list[WPoint]": list[W.WPoint], "WOuter": W.WOuter, "Point | None": W.Point | None, "list[Point]": list[W.Point]}
+             "list[WPoint]": list[W.WPoint], "WOuter": W.WOuter, "Point | None": W.Point | None, "list[Point]": list[W.Point],
+             "Literal['r', 'w']": t.Literal["r", "w"], "LiteralText": W.LiteralText, "list[Literal['r', 'w']]": list[t.Literal["r", "w"]]}
     qual = {f"{Q}.WOuter.WInner": W.WOuter.WInner, f"{Q}.WPoint | {Q}.WOther": W.WPoint | W.WOther, f"{Q}.WPoint | None": W.WPoint | None,
             f"{Q}.WPoint": W.WPoint, f"{Q}.WOuter": W.WOuter}
-    return [("here", r, T) for r, T in local.items()] + [("qualified", r, T) for r, T in qual.items()]
+    out = [("here", r, T) for r, T in local.items()] + [("qualified", r, T) for r, T in qual.items()]
+    # the same expressions as the *value* of a string-valued alias, at the root and as a list element
+    for r, T in local.items():
+        key = "alias_str:" + r
+        if key not in _ALIASES:
+            _ALIASES[key] = wrapmod.wrap("alias_str", r, None)[1]
+        out.append(("alias_str", _ALIASES[key], T))
+        out.append(("alias_str_in_list", list[_ALIASES[key]], list[T]))
+    return out
 
 
-def make_refexpr(timeout):
+_ALIASES = {}
+
+
+def make_refexpr(which, timeout):
     """String references that are *expressions* (nested classes, unions, subscripted generics over referenced names),
     issued from the defining module and - fully qualified - from another module; against the evaluated type."""
     W = wrapmod
     wire = [{"x": 1, "y": 2}, {"x": "1"}, {"name": "n"}, None, [{"x": 1}], {"k": {"x": "3"}}, [{"x": 1, "y": 2}, 1], "abc", 7,
-            {"inner": {"x": "1"}}, '{"x": 1, "y": 2}', [{"x": 1, "y": "2"}]]
+            {"inner": {"x": "1"}}, '{"x": 1, "y": 2}', [{"x": 1, "y": "2"}], "r", ["w", "r"], {"body": 5}]
     vals = [W.WPoint(1, 2), W.WOther("n"), W.WOuter.WInner(1), None, [W.WOuter.WInner(1)], {"k": W.WOuter.WInner(2)}, (W.WPoint(1, 2), 3),
-            [W.WPoint(1, 2)], W.WOuter(W.WOuter.WInner(1)), M.Point(1, 2), [M.Point(1, 2)]]
+            [W.WPoint(1, 2)], W.WOuter(W.WOuter.WInner(1)), M.Point(1, 2), [M.Point(1, 2)], "r", "x", ["w"], W.LiteralText("b")]
+
+    def lift(x, origin):
+        return [x] if origin == "alias_str_in_list" else x
+
 
     def body(c0: int, c1: int, c2: int):
         from typelib import codecs, marshals, unmarshals
@@ -255,24 +271,24 @@ def make_refexpr(timeout):
         with NoTracing():
             exprs = _refexprs()
             origin, ref, T = exprs[ch.pick(len(exprs))]
-            which = ch.pick(3)
             caches.clear_all()
             fn = (unmarshals.unmarshaller, marshals.marshaller, codecs.codec)[which]
-            site = origin + ":" + ("nested_class" if "WInner" in ref else "union" if "|" in ref else "subscripted" if "[" in ref else "class")
+            rs = str(ref)
+            site = origin + ":" + ("nested_class" if "WInner" in rs else "literal" if "Literal" in rs else "union" if "|" in rs else "subscripted" if "[" in rs else "class")
             reached()
             try:
-                R = wrapmod.call_here(fn, ref) if origin == "here" else othermod.call_qualified(fn, ref)
+                R = othermod.call_qualified(fn, ref) if origin == "qualified" else wrapmod.call_here(fn, ref)
             except Exception as e:  # noqa: BLE001
                 return ("reference_unresolved:" + type(e).__name__, site, _d(ref, e))
             RT = fn(T)
             if which == 0:
-                x = wire[ch.pick(len(wire))]
+                x = lift(wire[ch.pick(len(wire))], origin)
                 a, b = outcome(R, x), outcome(RT, x)
             elif which == 1:
-                x = vals[ch.pick(len(vals))]
+                x = lift(vals[ch.pick(len(vals))], origin)
                 a, b = outcome(R, x), outcome(RT, x)
             else:
-                x = vals[ch.pick(len(vals))]
+                x = lift(vals[ch.pick(len(vals))], origin)
                 a, b = outcome(R.encode, x), outcome(RT.encode, x)
                 if a == b and a[0]:
                     a, b = outcome(R.decode, a[1]), outcome(RT.decode, b[1])
@@ -280,7 +296,7 @@ def make_refexpr(timeout):
                 return ("reference_behaves_differently", site, _d(ref, x, a, b))
         return None
 
-    return Cond("refexpr", [("c0", int), ("c1", int), ("c2", int)], body, mode="E3", timeout=timeout)
+    return Cond("refexpr/" + ("unmarshaller", "marshaller", "codec")[which], [("c0", int), ("c1", int), ("c2", int)], body, mode="E3", timeout=timeout)
 
 
 _RC = [0]
@@ -392,7 +408,7 @@ def conditions(tier, seed):
         for pos in POSITIONS:
             out.append(make_chain(base, pos, maxlen, to))
         out.append(make_origin(base, to))
-    out.append(make_refexpr(to))
+    out += [make_refexpr(w, to) for w in range(3)]
     out.append(make_recwrap(to))
     for base in ("int", "list[int]", "Point", "WPoint"):
         for kind in wrapmod.WRAPPERS:
